@@ -2,6 +2,8 @@
 import sys
 import threading
 
+from hypothesis import strategies as st
+
 from vf import hyp
 from vf import progs
 from vf import rmode
@@ -125,6 +127,18 @@ def check(prog):
   return r
 
 
+@st.composite
+def with_unrenderable(draw, programs):
+  """One program in twelve gets a phase that raises an exception whose str() raises (nothing can render it)."""
+  prog = draw(programs)
+  ph = progs.all_phases(prog)
+  if ph and draw(st.integers(0, 11)) == 0:
+    p = ph[draw(st.integers(0, len(ph) - 1))]
+    if p['o'].get('to') != 0:
+      p['s'][draw(st.integers(0, len(p['s']) - 1))]['end'] = 'RAISE_BADSTR'
+  return prog
+
+
 def plan(tier, seed):
   jobs = []
   n = 500 if tier == 'quick' else 9000
@@ -145,7 +159,7 @@ def run_job(job, acct):
     from vf import runner  # pylint: disable=g-import-not-at-top
     runner.run_regress(sys.modules[__name__], job, acct)
   elif job['kind'] == 'hyp':
-    hyp.search(acct, progs.programs(strict=job['strict'], with_test_start=True), check,
+    hyp.search(acct, with_unrenderable(progs.programs(strict=job['strict'], with_test_start=True)), check,
                seed=job['hseed'], max_examples=job['n'], known=known)
   elif job['kind'] == 'enum':
     for i, base in enumerate(progs.enumerate_programs(job['k'], job['maxdepth'])):
